@@ -67,7 +67,7 @@ type selfTest struct {
 // modelChecks runs M1: the reference design on the built-in programs (no
 // violation allowed) and the deviation self-tests (violation required).
 func modelChecks(ctx *core.Ctx) []*selfTest {
-	res, err := ctx.RunTLC(core.TLCOpts{Module: "C12Model",
+	res, err := runTLC(ctx, core.TLCOpts{Module: "C12Model",
 		Cfg:     modelCfg("", "BuiltinProgs", refInvariants+"PROPERTY LatchLive\n"),
 		Workers: 4, Timeout: 3 * time.Minute, Label: "M1-reference-builtin", Coverage: ctx.Thorough()})
 	if err != nil {
@@ -95,7 +95,7 @@ func modelChecks(ctx *core.Ctx) []*selfTest {
 		go func(i int) {
 			defer wg.Done()
 			t := specs[i]
-			r, err := ctx.RunTLC(core.TLCOpts{Module: "C12Model", Cfg: modelCfg(`"write_error_dropped"`, "BuiltinProgs", t.decl),
+			r, err := runTLC(ctx, core.TLCOpts{Module: "C12Model", Cfg: modelCfg(`"write_error_dropped"`, "BuiltinProgs", t.decl),
 				Workers: 1, Timeout: 3 * time.Minute, Label: "M1-selftest-write_error_dropped-" + t.check})
 			if r != nil && r.Violated == "" && strings.Contains(r.Stdout, "Error: Temporal property "+t.check+" was violated") {
 				// this TLC version's wording of a liveness violation
@@ -151,7 +151,7 @@ func modelOnFamilies(ctx *core.Ctx, units []*Unit, label string) {
 	if label != "sites" {
 		inv = regexp.MustCompile(`INVARIANT NoUnspec\n`).ReplaceAllString(inv, "")
 	}
-	res, err := ctx.RunTLC(core.TLCOpts{Module: "C12ModelFile", Cfg: modelCfg("", "FileProgs", inv),
+	res, err := runTLC(ctx, core.TLCOpts{Module: "C12ModelFile", Cfg: modelCfg("", "FileProgs", inv),
 		Files: map[string][]byte{"c12_progs.ndjson": buf.Bytes()}, Workers: 8, Timeout: 6 * time.Minute, Label: "M1-reference-" + label})
 	if err != nil {
 		ctx.ToolError("M1 on %s: %v", label, err)
@@ -169,6 +169,17 @@ func trunc(s string, n int) string {
 		return s[:n] + "..."
 	}
 	return s
+}
+
+// runTLC is ctx.RunTLC with one retry when the tool itself failed (the JVM
+// was killed, a timeout): tool trouble is not a verdict either way.
+func runTLC(ctx *core.Ctx, o core.TLCOpts) (*core.TLCResult, error) {
+	r, err := ctx.RunTLC(o)
+	if err == nil || (r != nil && (r.Violated != "" || strings.Contains(r.Stdout, "Error: Temporal property"))) {
+		return r, err
+	}
+	fmt.Printf("note: TLC run %s failed (%v), retrying once\n", o.Label, err)
+	return ctx.RunTLC(o)
 }
 
 var extraMu sync.Mutex
